@@ -77,7 +77,9 @@ def to_fixed(text, rng, limit=True):
             continue
         if s.startswith("!"):
             if s.startswith("!!") or s.startswith("!>"):
-                out.append(s)                       # doc comments keep their '!' in column 1
+                # doc comments keep their '!' - in column 1 or, indented, in columns 2-5 (a '!' there opens a comment, too);
+                # comment lines may be longer than 72 columns
+                out.append(rng.choice(["", "", " ", "  ", "    "]) + s)
             else:
                 out.append(rng.choice(["C", "c", "*", "!"]) + s[1:])
             continue
@@ -99,7 +101,11 @@ def to_fixed(text, rng, limit=True):
                 ln = "     " + rng.choice("&1$+x*!9.#") + rng.choice(["", " ", "  "]) + piece
             last = idx == len(pieces) - 1
             if last and doc:
-                ln += " " + doc
+                if limit and len(ln) + 1 + len(doc) > 72:
+                    out.append(ln)                  # columns 73+ do not belong to the line: the documentation goes on a line of its own
+                    ln = doc
+                else:
+                    ln += " " + doc
             elif limit and len(ln) <= 72 and rng.random() < 0.25:
                 ln = ln.ljust(72) + rng.choice(["SEQ%05d" % (len(out) + 1), "! side note", "12345678"])
             out.append(ln)
@@ -176,6 +182,10 @@ def corpus():
              "  function f(a, b) result(r)\n    !! function doc\n    integer, intent(in) :: a, b\n    integer :: r\n    r = a + b\n    if (a > b) call g(r, a, b)\n  end function f\n"
              "  subroutine g(x1, x2, x3)\n    integer :: x1, x2, x3\n    print *, 'text with ! and '' quote', x1\n  end subroutine g\nend module docs\n")
     progs.append(("extra/docs", extra))
+    longdoc = ("subroutine advance(dt, state)\n  !! advances the state by one step of the given size and stores the diagnostics afterwards for later use\n"
+               "  real, intent(in) :: dt\n    !! the step size, which has to be strictly positive here because the scheme is explicit in time\n"
+               "  real, intent(inout) :: state(3)\n  !! short\n  state = state + dt\nend subroutine advance\n")
+    progs.append(("extra/longdoc", longdoc))
     return progs
 
 
@@ -195,6 +205,22 @@ def pair_case(args):
     except Exception as ex:
         d = [f"FORD failed: {type(ex).__name__}: {ex}"]
     return {"name": name, "seed": seed, "diff": d, "fixed": fixed if d else None}
+
+
+def include_pair(_):
+    """A fixed-form file that INCLUDEs a fixed-form file with a line wider than 72 columns, length limit off, against free form."""
+    wide_decl = "real :: spacing_x, spacing_y, spacing_z, stretching, a_rather_long_name_for_padding"
+    free = {"grid.f90": "module grid\n  implicit none\n  include 'decl.inc'\nend module grid\n", "decl.inc": "  " + wide_decl + "\n  integer :: nx\n"}
+    fixed = {"grid.f": "      module grid\n      implicit none\n      include 'decl.inc'\n      end module grid\n", "decl.inc": "      " + wide_decl + "\n      integer :: nx\n"}
+    assert len("      " + wide_decl) > 72
+    try:
+        a = fordrun.project(free)
+        b = fordrun.project(fixed, fixed_length_limit=False)
+        va = sorted(v.name for v in a.modules[0].variables) if a.modules else None
+        vb = sorted(v.name for v in b.modules[0].variables) if b.modules else None
+        return None if va == vb and va else f"included fixed-form file with a wide line, length limit off: free form declares {va}, fixed form {vb}"
+    except Exception as ex:
+        return f"FORD failed: {type(ex).__name__}: {ex}"
 
 
 def validate_conv(runs, fdev):
@@ -326,6 +352,11 @@ def run(tier, seed, ck: Check):
                 continue
             ck.violation("fixed-vs-free", {"program": r_["name"], "seed": r_["seed"]}, observed=r_["diff"][:5],
                          detail=f"{r_['name']} (layout seed {r_['seed']}): fixed-form tree differs from free-form tree: {r_['diff'][:2]}", extra={"fixed": r_["fixed"]})
+    ck.count()
+    ck.nontrivial_case("include-pair")
+    inc = pool.pmap(include_pair, [0, 1, 2, 3], chunksize=1)[0]
+    if inc:
+        ck.violation("fixed-vs-free", {"program": "include-pair"}, detail=inc)
     ck.coverage["pair_programs"] = len(progs)
     ck.sample({"fixed_lines": uniq[len(uniq) // 2]["lines"], "logical": uniq[len(uniq) // 2]["logical"]})
     ck.sample({"program": progs[0][0], "fixed_rendering": to_fixed(progs[0][1], random.Random(1))})
